@@ -442,7 +442,8 @@ class AddonManager:
         cls._reload_addons()
         if message.name == "ChatFromViewer" and "ChatData" in message:
             if message["ChatData"]["Channel"] == cls.COMMAND_CHANNEL:
-                region.circuit.drop_message(message)
+                if not message.finalized:
+                    region.circuit.drop_message(message)
                 with addon_ctx.push(session, region):
                     try:
                         cls._handle_command(session, region, message["ChatData"]["Message"])
